@@ -194,7 +194,7 @@ let run_rs (c : case) : string =
 
 (* ---- compressing reader ---- *)
 let run_cr (c : case) : string =
-  if get_opt c "once" = Some "1" || (get_int c "fault" > 0 && get_int c "frag" <> 0) then "" (* implementation-side oracles only *) else
+  if get_opt c "once" = Some "1" || (get_int c "fault" > 0 && get_int c "frag" <> 0) || get_opt c "data2" <> None then "" (* implementation-side oracles only *) else
   let data = parse_data (get c "data") in
   let fault = get_int c "fault" in
   let sizes = List.map int_of_string (get_list c "sizes") in
